@@ -333,7 +333,8 @@ class ExprMixin:
         if b.cls is not None and not cx.spec:
             for c in self.repo.mro(b.cls):
                 vc = self.reg.contracts.get(c + "." + attr)
-                if vc is not None and vc.virtual:
+                if vc is not None and vc.virtual and (vc.only_in is None or cx.fn in vc.only_in or
+                                                      any(cx.fn.startswith(x + ".") for x in vc.only_in)):
                     return [(st, VFunc("contract", c + "." + attr, self_val=b, qn=c + "." + attr))]
         cands = self.candidate_classes(st, b)
         # class-level: properties and methods, grouped by implementation
